@@ -44,7 +44,7 @@ LEVEL = "exploration"
 ENGINE = "sansio"
 BUDGET = {"quick": (350, 18), "thorough": (40000, 220)}
 WORKERS = {"quick": 4, "thorough": 16}
-REQUIRED = ["replay.cases", "replay.forwarded", "replay.cred_to_proxy", "connect.answered_by_addon_2xx", "connect.refused_by_addon", "upstream.closes_after_response", "tunnel.reconnected", "hook.server_disconnected", "option_change.unset_to_set", "option_change.set_to_other", "option_change.set_to_unset", "option_change.applied", "search.conn", "search.tunnel", "search.tls_plain", "cred.in_connect_head", "cred.in_plain_to_proxy", "cred.to_reverse_target", "forwarded.no_cred_expected"]
+REQUIRED = ["replay.option_history.auth-then-mode", "replay.cases", "replay.forwarded", "replay.cred_to_proxy", "connect.answered_by_addon_2xx", "connect.refused_by_addon", "upstream.closes_after_response", "tunnel.reconnected", "hook.server_disconnected", "option_change.unset_to_set", "option_change.set_to_other", "option_change.set_to_unset", "option_change.applied", "search.conn", "search.tunnel", "search.tls_plain", "cred.in_connect_head", "cred.in_plain_to_proxy", "cred.to_reverse_target", "forwarded.no_cred_expected"]
 TECHNIQUE = "runtime monitoring: sans-io conversations with real addons, unique-token search on every wire / tunnel / decrypted stream"
 RULE = (
     "case = (mode, upstream_auth timeline: initially unset or a unique random credential, 0-2 runtime changes between items "
@@ -524,7 +524,28 @@ def run_replay_case(ctx, tctx, ua, chain):
     pw = "p" + "".join(r.choice(ALNUM) for _ in range(11))
     cred = f"{user}:{pw}"
     needles = [base64.b64encode(cred.encode()), user.encode(), pw.encode()]
-    tctx.options.update(upstream_auth=cred, mode=[cur], connection_strategy=r.choice(["eager", "lazy"]), ssl_insecure=True)
+    # option history before the replay: the credentials are configured while another mode is (still) set and the mode is
+    # switched afterwards, or the other way round, or both in one update
+    prev = r.choice(CUR_MODES)
+    order = r.choice(["auth-then-mode", "auth-then-mode", "mode-then-auth", "joint", "auth-mode-auth2"])
+    ctx.count("replay.option_history." + order)
+    tctx.options.update(connection_strategy=r.choice(["eager", "lazy"]), ssl_insecure=True)
+    if order == "auth-then-mode":
+        tctx.options.update(mode=[prev], upstream_auth=None)
+        tctx.options.update(upstream_auth=cred)
+        tctx.options.update(mode=[cur])
+    elif order == "mode-then-auth":
+        tctx.options.update(upstream_auth=None)
+        tctx.options.update(mode=[cur])
+        tctx.options.update(upstream_auth=cred)
+    elif order == "joint":
+        tctx.options.update(upstream_auth=cred, mode=[cur])
+    else:
+        old = "uOLD" + user + ":pOLD" + pw
+        needles += [base64.b64encode(old.encode()), ("uOLD" + user).encode(), ("pOLD" + pw).encode()]
+        tctx.options.update(mode=[prev], upstream_auth=old)
+        tctx.options.update(mode=[cur])
+        tctx.options.update(upstream_auth=cred)
     cur_proxy = (PROXY_HTTPS if "https" in cur else PROXY_HTTP) if cur.startswith("upstream") else None
     cur_target = (TARGET_HTTPS if "https" in cur else TARGET_HTTP) if cur.startswith("reverse") else None
     ctx.count("replay.cases")
@@ -581,7 +602,7 @@ def run_replay_case(ctx, tctx, ua, chain):
         for e in d.exceptions:
             ctx.seen("layer_exceptions", f"{e[0]}@{e[1]}")
         ctx.seen("replay_hook_sequences", ",".join(d.hook_names())[:200])
-        witness = {"replay": True, "recorded_mode": rec, "current_mode": cur, "upstream_auth": cred, "flows": flows_desc, "hooks": d.hook_names()}
+        witness = {"replay": True, "recorded_mode": rec, "current_mode": cur, "option_history": (order, prev), "upstream_auth": cred, "flows": flows_desc, "hooks": d.hook_names()}
         for conn in d.servers:
             raw = bytes(d.out[conn])
             peer = d.peers.get(conn)
